@@ -392,6 +392,11 @@ class MPNLRICollection:
                         continue
                     # Yield current payload and start new one
                     yield self._attribute_header(self._CODE_MP_REACH_NLRI, len(payload)) + payload
+                    if self._attr_len(header_length + len(packed_nlri)) > maximum:
+                        # this NLRI does not fit even alone
+                        log.critical(lazymsg('update.pack.error reason=attributes_too_large'), 'parser')
+                        payload = header
+                        continue
                     payload = header + packed_nlri
                 else:
                     payload = payload + packed_nlri
@@ -441,6 +446,11 @@ class MPNLRICollection:
                     continue
                 # Yield current payload and start new one
                 yield self._attribute_header(self._CODE_MP_UNREACH_NLRI, len(payload)) + payload
+                if self._attr_len(header_length + len(packed_nlri)) > maximum:
+                    # this NLRI does not fit even alone
+                    log.critical(lazymsg('update.pack.error reason=attributes_too_large'), 'parser')
+                    payload = header
+                    continue
                 payload = header + packed_nlri
             else:
                 payload = payload + packed_nlri
